@@ -13,7 +13,7 @@
 (* an "OK" among the replies of that step means this command was accepted.                 *)
 EXTENDS TraceKit, RelayContract, SequencesExt
 
-Cl == 1..16
+Cl == 1..8     \* client numbers (generators use at most 8 clients per behaviour)
 Zero == [c \in Cl |-> 0]
 NoneSet == [c \in Cl |-> {}]
 Empty == [c \in Cl |-> <<>>]
@@ -70,10 +70,12 @@ W(acc, p, ok, tb) ==
 \* the whole evaluation of one observed step: new ghost + set of failing clauses
 Eval(e) ==
     LET c   == IF Has(e, "c") THEN e.c ELSE 0
+        D   == [x \in Cl |-> DeltaOf(e, x)]          \* what every client newly received
+        X   == {x \in Cl : D[x] # <<>>}
         isSend == e.op = "send" /\ c \in Cl
         goneB == [x \in Cl |-> g.cgone[x] \/ g.eof[x]]
         ncmd == Cardinality({j \in DOMAIN Parts(e) : Parts(e)[j].k \in {"reg", "con"}})
-        ok  == isSend /\ ncmd = 1 /\ g.br[c] = 0 /\ g.claim[c] = 0 /\ HasKind(DeltaOf(e, c), "ok")
+        ok  == isSend /\ ncmd = 1 /\ g.br[c] = 0 /\ g.claim[c] = 0 /\ HasKind(D[c], "ok")
         tb  == isSend /\ g.br[c] # 0 /\ g.claim[c] = 0
         a0  == IF isSend THEN [claim |-> g.claim[c], cself |-> g.cself[c], idb |-> g.idb[c], pre |-> g.pre[c],
                                post |-> g.post[c], rout |-> g.rout[c], regids |-> g.regids[c]]
@@ -81,11 +83,11 @@ Eval(e) ==
         a2  == IF isSend THEN FoldLeft(LAMBDA acc, p : W(acc, p, ok, tb), a0, Parts(e)) ELSE a0
         \* does c's identity become complete in this step?
         bridging == isSend /\ ~goneB[c] /\ a2.claim # 0 /\ ~g.idone[c] /\ a2.idb >= 32
-        BR  == {x \in Cl \ {c} : g.br[x] = 0 /\ HasKind(DeltaOf(e, x), "begin")}
+        BR  == {x \in Cl \ {c} : g.br[x] = 0 /\ HasKind(D[x], "begin")}
         p   == IF BR = {} THEN 0 ELSE CHOOSE x \in BR : \A y \in BR : x <= y
-        pItems == IF p = 0 THEN <<>> ELSE DeltaOf(e, p)
+        pItems == IF p = 0 THEN <<>> ELSE D[p]
         bIdx == IF p = 0 THEN 0 ELSE CHOOSE j \in DOMAIN pItems : pItems[j].k = "begin" /\ \A j2 \in DOMAIN pItems : pItems[j2].k = "begin" => j <= j2
-        cFail == isSend /\ (HasKind(DeltaOf(e, c), "err") \/ c \in EofSet(e))
+        cFail == isSend /\ (HasKind(D[c], "err") \/ c \in EofSet(e))
         paired == bridging /\ p # 0
         br2 == IF paired THEN [g.br EXCEPT ![c] = p, ![p] = c] ELSE g.br
         pre2 == IF isSend THEN [g.pre EXCEPT ![c] = a2.pre] ELSE g.pre
@@ -101,7 +103,7 @@ Eval(e) ==
         TokTo(f, q) == IF f \in Cl /\ q \in RangeOf(post2[f]) THEN br2[f] ELSE 0
         Known(f, q) == f \in Cl /\ (q \in RangeOf(post2[f]) \/ q \in pre2[f])
         Bad(x) ==
-            LET items == DeltaOf(e, x)
+            LET items == D[x]
                 toks == {j \in DOMAIN items : items[j].k = "t"}
                 idsI == {j \in DOMAIN items : items[j].k = "id"}
                 early(j) == br2[x] = 0 \/ (paired /\ x = p /\ j < bIdx)
@@ -112,8 +114,9 @@ Eval(e) ==
                \cup (IF (\E j \in toks : ~Known(items[j].f, items[j].q))
                         \/ (br2[x] # 0 /\ (g.gotn[x] + Len(mine) > Len(post2[br2[x]]) \/ [j \in DOMAIN mine |-> mine[j].q] # want))
                      THEN {"C25.loss-or-reorder"} ELSE {})
-        gotn2 == [x \in Cl |-> g.gotn[x] + Len(SelectSeq(DeltaOf(e, x), LAMBDA it : it.k = "t" /\ br2[x] # 0 /\ it.f = br2[x] /\ TokTo(it.f, it.q) = x))]
-        ntok == FoldLeft(LAMBDA acc, x : acc + Len(SelectSeq(DeltaOf(e, x), LAMBDA it : it.k = "t")), 0, [x \in Cl |-> x])
+        gotn2 == [x \in Cl |-> IF x \notin X \/ br2[x] = 0 THEN g.gotn[x]
+                                ELSE g.gotn[x] + Len(SelectSeq(D[x], LAMBDA it : it.k = "t" /\ it.f = br2[x] /\ TokTo(it.f, it.q) = x))]
+        ntok == FoldLeft(LAMBDA acc, x : acc + Len(SelectSeq(D[x], LAMBDA it : it.k = "t")), 0, SetToSeq(X))
         \* ---- clauses ----
         pairBad ==
             (IF bridging /\ BR = {} /\ ~cFail THEN {"C25.asymmetric-pairing"} ELSE {})
@@ -132,7 +135,7 @@ Eval(e) ==
         leakBad == IF e.op # "final" THEN {} ELSE
                    (IF e.sc # 0 THEN {"C26.leak/sessions"} ELSE {}) \cup (IF e.rc # 0 THEN {"C26.leak/registrations"} ELSE {})
                    \cup (IF e.fds # 0 THEN {"C26.leak/fds"} ELSE {})
-        bad == UNION {Bad(x) : x \in Cl} \cup pairBad \cup claimBad \cup lossBad \cup pdBad \cup leakBad
+        bad == UNION {Bad(x) : x \in X} \cup pairBad \cup claimBad \cup lossBad \cup pdBad \cup leakBad
         g2 == [cgone |-> cgone2, eof |-> eof2, regids |-> regids2, claim |-> claim2,
                cself |-> IF isSend THEN [g.cself EXCEPT ![c] = a2.cself] ELSE g.cself,
                idb |-> IF isSend THEN [g.idb EXCEPT ![c] = a2.idb] ELSE g.idb,
